@@ -453,12 +453,12 @@ func evaluate(spec caseSpec, db *Database, verbose bool) outcome {
 		}
 		out.class = strings.Join(out.explained, "+")
 		out.outcome = "deviant:" + out.class
-		out.what = fmt.Sprintf("%s on %s %s: %s (explained by deviant rule %s)", spec.Text, spec.DB, paramString(spec.Params), diff, out.class)
+		out.what = fmt.Sprintf("%s on %s %s%s: %s (explained by deviant rule %s)", spec.Text, spec.DB, paramString(spec.Params), modeString(spec.Cluster), diff, out.class)
 		return out
 	}
 	out.class = "unexplained:" + spec.Query.Shape()
 	out.outcome = "unexplained"
-	out.what = fmt.Sprintf("%s on %s %s: %s", spec.Text, spec.DB, paramString(spec.Params), diff)
+	out.what = fmt.Sprintf("%s on %s %s%s: %s", spec.Text, spec.DB, paramString(spec.Params), modeString(spec.Cluster), diff)
 	return out
 }
 
@@ -472,7 +472,7 @@ func main() {
 		"label-filter trees of <=3 leaves with and/or/parentheses over string and numeric comparisons, json with parameters, regexp with named groups, drop) " +
 		"is rendered by the real parser+planner and executed by chsim on the universal database (time-interleaved: passing and failing lines of every stage alternate) without limit, " +
 		"with limits {1, 2, n-1} below the number n of matching lines x {backward, forward} (first query of every shape: all 6 variants; the others: 4 in thorough, 1 rotating in quick), " +
-		"and under a second window / forward / cluster rendering (quick: only for queries of <=1 stage with a single-leaf filter), " +
+		"both deployment modes (IsCluster false and true; thorough: every query without limit and with one rotating limit variant, first query of every shape with all limit variants; quick: first query of every shape with all variants, simple queries without limit), a second window (quick: simple queries), " +
 		"and a set of pipeline shapes on every sub-database of <=3 rows of a 6-row pool under limit {1,2,3} x direction; a case is distinct by its query text; " +
 		"non-trivial = the oracle's match set is non-empty or differs between two cases"
 	r.Assumptions = []string{
@@ -600,15 +600,22 @@ func main() {
 		add := func(p Params, cluster bool) {
 			cases = append(cases, caseSpec{Query: qu, Text: text, DB: uni.Name, Params: p, Cluster: cluster})
 		}
+		shape := qu.Shape()
+		first := !shapeSeen[shape]
+		shapeSeen[shape] = true
 		add(Params{Start: start, End: end}, false)
-		if cfg.thorough || simpleQuery(qu) {
-			// second window (entries one tick outside both edges), forward without limit, cluster rendering (inlined
-			// WITHs, GLOBAL joins, distributed table names)
-			add(Params{Start: start + 1, End: end - 1}, false)
+		// The deployment mode is a dimension of the case: the cluster rendering (inlined WITHs, GLOBAL joins / IN,
+		// distributed table names = views of the local tables in the model) is evaluated over the same data and must
+		// give the same lines.  Thorough: every query; quick: the first query of every shape and every simple query.
+		if cfg.thorough || first || simpleQuery(qu) {
 			add(Params{Start: start, End: end}, true)
-			if cfg.thorough {
-				add(Params{Start: start, End: end, Forward: true}, false)
-			}
+		}
+		if cfg.thorough || simpleQuery(qu) {
+			// second window (entries one tick outside both edges)
+			add(Params{Start: start + 1, End: end - 1}, false)
+		}
+		if simpleQuery(qu) && cfg.thorough {
+			add(Params{Start: start, End: end, Forward: true}, false)
 		}
 		// LIMIT x direction for EVERY query: limits below the number n of matching lines, so that the cut falls
 		// inside the (time-interleaved) data.  Variants: (1,bwd) (1,fwd) (2,bwd) (n-1,fwd) (2,fwd) (n-1,bwd).
@@ -628,18 +635,19 @@ func main() {
 				variants = append(variants, v)
 			}
 		}
-		shape := qu.Shape()
-		first := !shapeSeen[shape]
-		shapeSeen[shape] = true
 		for vi, v := range variants {
+			rot := vi == qi%len(variants)
 			switch {
-			case first: // the first query of every shape: all variants, in both tiers
+			case first && (cfg.thorough || vi < 4): // the first query of every shape: all variants (quick: 4: both directions, limit 1/2 and n-1), both deployment modes
 			case cfg.thorough && vi < 4:
-			case !cfg.thorough && vi == qi%len(variants): // quick: the variants rotate over the queries of a shape
+			case !cfg.thorough && rot: // quick: the variants rotate over the queries of a shape
 			default:
 				continue
 			}
 			add(Params{Start: start, End: end, Limit: v.l, Forward: v.fwd}, false)
+			if (first && (cfg.thorough || vi < 4)) || (cfg.thorough && rot) {
+				add(Params{Start: start, End: end, Limit: v.l, Forward: v.fwd}, true)
+			}
 		}
 	}
 	// unparenthesised and/or chains on the truth-table database (all 8 truth assignments of three independent
@@ -650,10 +658,11 @@ func main() {
 			continue
 		}
 		seen[text] = true
-		cases = append(cases, caseSpec{Query: qu, Text: text, DB: truth.Name, Params: Params{Start: start, End: end}})
+		cases = append(cases, caseSpec{Query: qu, Text: text, DB: truth.Name, Params: Params{Start: start, End: end}},
+			caseSpec{Query: qu, Text: text, DB: truth.Name, Params: Params{Start: start, End: end}, Cluster: true})
 		if cfg.thorough {
 			cases = append(cases, caseSpec{Query: qu, Text: text, DB: truth.Name, Params: Params{Start: start, End: end, Limit: 1}},
-				caseSpec{Query: qu, Text: text, DB: truth.Name, Params: Params{Start: start, End: end}, Cluster: true})
+				caseSpec{Query: qu, Text: text, DB: truth.Name, Params: Params{Start: start, End: end, Limit: 1}, Cluster: true})
 		}
 	}
 	// regexp group structures, each on the database of its shape
@@ -664,7 +673,7 @@ func main() {
 		}
 		seen[text] = true
 		cases = append(cases, caseSpec{Query: rq.q, Text: text, DB: rq.db, Params: Params{Start: start, End: end}})
-		if cfg.thorough && len(rq.q.Stages) == 1 {
+		if cfg.thorough || len(rq.q.Stages) == 1 {
 			cases = append(cases, caseSpec{Query: rq.q, Text: text, DB: rq.db, Params: Params{Start: start, End: end}, Cluster: true})
 		}
 	}
@@ -677,9 +686,7 @@ func main() {
 			for _, lim := range []int64{1, 2, 3} {
 				for _, fwd := range []bool{false, true} {
 					cases = append(cases, caseSpec{Query: qu, Text: text, DB: d.Name, Params: Params{Start: start, End: end, Limit: lim, Forward: fwd}})
-					if cfg.thorough {
-						cases = append(cases, caseSpec{Query: qu, Text: text, DB: d.Name, Params: Params{Start: start, End: end, Limit: lim, Forward: fwd}, Cluster: true})
-					}
+					cases = append(cases, caseSpec{Query: qu, Text: text, DB: d.Name, Params: Params{Start: start, End: end, Limit: lim, Forward: fwd}, Cluster: true})
 				}
 			}
 		}
@@ -748,6 +755,7 @@ func main() {
 	pairs := map[string]bool{}
 	executed := int64(0)
 	sampledShapes := map[string]bool{}
+	clusterCases, clusterLimitCases := 0, 0
 	limitCases, limitCasesCutting := 0, 0
 	limitShapes := map[string]bool{}
 	classCount := map[string]int{}
@@ -784,6 +792,12 @@ func main() {
 			continue
 		}
 		executed++
+		if o.spec.Cluster {
+			clusterCases++
+			if o.spec.Params.Limit > 0 {
+				clusterLimitCases++
+			}
+		}
 		if o.spec.Params.Limit > 0 && o.spec.DB == "universal" {
 			limitCases++
 			if o.limitCut {
@@ -821,6 +835,7 @@ func main() {
 	r.Extra["databases"] = len(dbs)
 	r.Extra["universal_database"] = map[string]int{"streams": len(uni.Streams), "entries": len(uni.Entries)}
 	r.Extra["limit_cases_on_universal_database"] = map[string]int{"cases": limitCases, "cut_skips_non_matching_lines": limitCasesCutting, "query_shapes_with_such_a_case": len(limitShapes)}
+	r.Extra["cluster_mode_cases"] = map[string]int{"cases": clusterCases, "with_limit": clusterLimitCases}
 	r.Extra["cases_planned"] = len(cases)
 	r.Extra["cases_done"] = done
 	r.Extra["chsim_unsupported"] = chsimUnsupported
@@ -944,4 +959,12 @@ func firstParserIdx(q *Query) int {
 		}
 	}
 	return len(q.Stages)
+}
+
+
+func modeString(cluster bool) string {
+	if cluster {
+		return " cluster-mode"
+	}
+	return ""
 }
